@@ -1,32 +1,33 @@
 (* Props/C03_types.v — the type-system part of C03: property theorems only, each closed by `exact <lemma>`
-   (definitions in Lmmt/{Types,Check,Typing}.v, proofs in Lmmt/{SoundBind,SoundStep,SoundEval,SoundProg,Examples}.v).
+   (definitions in Lmmt/{Types,Check,Typing}.v, proofs in Lmmt/{SoundBind,SoundStep,SoundMatch,SoundEval,SoundProg,Examples}.v).
 
    C03: "Every program the type checker accepts compiles on both backends and executes ... without panicking ... dsp yields
    exactly the number of output words its type declares.  A program that cannot be executed safely is rejected with a
    diagnostic instead."
 
-   `tc_prog (mkAnn par ret) p` (Lmmt/Check.v) is an executable, syntax-directed type checker for the core language WITH closures
+   `tc_prog (mkAnn par ret sums) p` (Lmmt/Check.v) is an executable, syntax-directed type checker for the core language WITH closures
    (Lmmx/Syntax.v: numbers, tuples, records, let patterns, lambdas capturing mutable cells by reference, higher-order
-   functions, function names as values, pipes, default / named arguments, assignment, self / mem / delay); `par` / `ret` are the
-   parameter / return-type annotations the program text carries (`mkAnn` = the strict configuration: types are compared by
+   functions, function names as values, pipes, default / named arguments, assignment, self / mem / delay, declared sum types
+   with constructor application and `match` (literal / `_` / constructor / tuple patterns), `self` of any first-order data
+   type); `par` / `ret` are the parameter / return-type annotations the program text carries, `sums` its sum type declarations (`mkAnn` = the strict configuration: types are compared by
    equality; the lenient configuration `mkLenient` exists only for the comparison harness and has no theorem).  The reference semantics `xrun fuel p rows` (Lmmx/Ref.v, the semantics
    the real backends are compared with by checks/lmmx_part.py, C02) answers `Ok outputs`, `OutOfFuel`, or `Stuck code`
    (unbound variable, operand that is not a number, projection of a non-tuple, missing field, call of a non-function, arity
-   mismatch, pattern mismatch, assignment to a non-variable, missing default, dangling reference).
+   mismatch, pattern mismatch, assignment to a non-variable, missing default, dangling reference, NO ARM of a match applies).
 
    TYPE SOUNDNESS — for the whole language, no construct excluded: an accepted program never answers Stuck, and every
    output row has exactly word_size(return type of dsp) numbers.  The real type checker (compiler/typing.rs) is compared
    with `tc_prog` on generated programs and their type-changing mutants by checks/lmmt_part.py. *)
 From Coq Require Import List ZArith NArith Bool.
 From Mimium Require Import Lmmm.Syntax Lmmm.Ref Lmmx.Syntax Lmmx.Ref Lmmx.Examples.
-From Mimium Require Import Lmmt.Types Lmmt.Check Lmmt.Typing Lmmt.SoundStep Lmmt.SoundEval Lmmt.SoundProg Lmmt.Lenient Lmmt.Examples.
+From Mimium Require Import Lmmt.Types Lmmt.Check Lmmt.Typing Lmmt.SoundStep Lmmt.SoundMatch Lmmt.SoundEval Lmmt.SoundProg Lmmt.Lenient Lmmt.Examples.
 Import ListNotations.
 
 (* Accepted programs do not get stuck: for every fuel and all input rows of the declared arity the run is a defined
    result or OutOfFuel — never a Stuck (dynamic type error) value; a defined result has one output row per input row and
    every row has exactly the number of words of dsp's return type. *)
-Theorem C03_types_sound : forall par ret p info fuel rows,
-  tc_prog (mkAnn par ret) p = Some info ->
+Theorem C03_types_sound : forall par ret sums p info fuel rows,
+  tc_prog (mkAnn par ret sums) p = Some info ->
   Forall (fun row => length row = ti_inputs info) rows ->
   match xrun fuel p rows with
   | Ok outs => Forall (fun o => length o = word_size (ti_dsp_ret info)) outs /\ length outs = length rows
@@ -35,14 +36,14 @@ Theorem C03_types_sound : forall par ret p info fuel rows,
   end.
 Proof. exact types_sound. Qed.
 
-Theorem C03_types_never_stuck : forall par ret p info fuel rows code,
-  tc_prog (mkAnn par ret) p = Some info -> Forall (fun row => length row = ti_inputs info) rows -> xrun fuel p rows <> Stuck code.
+Theorem C03_types_never_stuck : forall par ret sums p info fuel rows code,
+  tc_prog (mkAnn par ret sums) p = Some info -> Forall (fun row => length row = ti_inputs info) rows -> xrun fuel p rows <> Stuck code.
 Proof. exact types_never_stuck. Qed.
 
 (* ... from every reachable state: after the global initialisation and any number of samples, running on from the world
    that was reached — with any other fuel, any state tree, any sample counter, any further inputs — is never stuck. *)
-Theorem C03_types_sound_reachable : forall par ret fuel p info rows1 genv ft wi outs s w,
-  tc_prog (mkAnn par ret) p = Some info -> Forall (fun row => length row = ti_inputs info) rows1 ->
+Theorem C03_types_sound_reachable : forall par ret sums fuel p info rows1 genv ft wi outs s w,
+  tc_prog (mkAnn par ret sums) p = Some info -> Forall (fun row => length row = ti_inputs info) rows1 ->
   xinit fuel (x_globals p) [] [] w0 = Ok (genv, ft, wi) ->
   xsamples fuel p genv ft 0%Z rows1 st0 wi = Ok (outs, s, w) ->
   forall fuel' t0 s' rows2, Forall (fun row => length row = ti_inputs info) rows2 ->
@@ -57,8 +58,8 @@ Proof. exact types_sound_reachable. Qed.
    of the closure instances, the variable cells against a store typing SV, every instance's captured environment and body
    against SV and the function signatures (`wok`); evaluating an expression of type t in a typed environment and world
    is not stuck, yields a value of type t and a typed world whose typings EXTEND the old ones — for every fuel. *)
-Theorem C03_types_preservation : forall par ret ft sigs now fuel selfv r e s w G t SV SC,
-  let an := mkAnn par ret in
+Theorem C03_types_preservation : forall par ret sums ft sigs now fuel selfv r e s w G t SV SC,
+  let an := mkAnn par ret sums in
   tc an G e = Some t -> env_ok SV sigs G r -> wok an ft sigs SV SC w ->
   match xeval fuel ft now selfv r e s w with
   | Ok (v, _, w') => exists SV' SC', ext SV SV' /\ ext SC SC' /\ wok an ft sigs SV' SC' w' /\ vtyp SC' t v
@@ -66,6 +67,27 @@ Theorem C03_types_preservation : forall par ret ft sigs now fuel selfv r e s w G
   | Stuck _ => False
   end.
 Proof. exact types_preservation. Qed.
+
+(* SUM TYPES, MATCH, MULTI-WORD SELF are part of the language the theorems above speak about (`sums` = the declared sum
+   types: name |-> payload type per constructor; `type rec` is outside).  The facts behind the three new rules:
+   (1) a match the checker accepts finds an arm: every pattern is typed against the scrutinee type (so its test is defined on
+       every value of that type) and the patterns are exhaustive (an irrefutable arm, or one arm per constructor of the sum
+       type), hence the first-match search of the reference semantics returns an arm, and that arm matched; *)
+Theorem C03_types_match_finds_arm : forall an G ts arms tys SC v,
+  tc_arms an false G ts arms = Some tys -> exhaustive ts (map fst arms) = true -> vtyp SC ts v ->
+  exists i m body, find_arm arms v 0 = Ok (i, m, body) /\ nth_error arms i = Some (m, body) /\ mtest m v = Ok true.
+Proof. exact find_arm_typed. Qed.
+
+(* (2) whatever a feedback cell holds, `self` read at a well-formed shape is a value of the shape's type (a sum type has at
+       least one constructor and is declared with exactly these payloads); *)
+Theorem C03_types_self_read_typed : forall sums SC sh s,
+  shape_ok sums sh = true -> vtyp SC (ty_of_shape sh) (Lmmx.Syntax.dec sh s).
+Proof. exact dec_typed. Qed.
+
+(* (3) a value of a sum type occupies the tag word plus room for the widest payload (mir.rs word_size). *)
+Theorem C03_types_word_size_sum : forall nm cs,
+  word_size (TSum nm cs) = S (list_max (map (fun o => match o with Some t => word_size t | None => 0 end) cs)).
+Proof. exact word_size_sum. Qed.
 
 (* boolean type equality decides equality *)
 Theorem C03_types_eqb : forall a b, ty_eqb a b = true <-> a = b.
@@ -75,12 +97,12 @@ Proof. exact (fun a b => conj (ty_eqb_eq a b) (fun E => eq_ind a (fun b => ty_eq
    length, argument lists of equal width, records and function types compare as equal; operators, delay, spread calls, dsp
    outputs and default values are not checked) as an upper bound of what the real type checker lets through.  It accepts
    everything the checker accepts, with the same answer — and it is, of course, NOT sound. *)
-Theorem C03_types_lenient_upper_bound : forall par ret p info,
-  tc_prog (mkAnn par ret) p = Some info -> tc_prog (mkLenient par ret) p = Some info.
+Theorem C03_types_lenient_upper_bound : forall par ret sums p info,
+  tc_prog (mkAnn par ret sums) p = Some info -> tc_prog (mkLenient par ret sums) p = Some info.
 Proof. exact tc_prog_extends. Qed.
 
 Example C03_types_lenient_is_unsound :
-  tc_prog an0 bad_operand = None /\ ret_of (mkLenient [] []) bad_operand = Some TNum /\ xrun 20 bad_operand [[]] = Stuck E_NOTNUM.
+  tc_prog an0 bad_operand = None /\ ret_of (mkLenient [] [] []) bad_operand = Some TNum /\ xrun 20 bad_operand [[]] = Stuck E_NOTNUM.
 Proof. exact bad_operand_lenient. Qed.
 
 (* ---- the hypotheses are satisfiable: closure programs are accepted (and run: Props/C02_ext.v) ---- *)
@@ -89,18 +111,18 @@ Proof. exact (conj ex_counter_typed ex_counter_run). Qed.
 Example C03_types_ex_two_counters : ret_of an0 ex_two_counters = Some TNum.
 Proof. exact ex_two_counters_typed. Qed.
 Example C03_types_ex_hof_stateful :
-  ret_of (mkAnn [(3%N, TFn [] TNum)] []) ex_hof_stateful = Some TNum /\ ret_of an0 ex_hof_stateful = None.
+  ret_of (mkAnn [(3%N, TFn [] TNum)] [] []) ex_hof_stateful = Some TNum /\ ret_of an0 ex_hof_stateful = None.
 Proof. exact (conj ex_hof_stateful_typed ex_hof_stateful_needs_annotation). Qed.
 Example C03_types_ex_nested_assign : ret_of an0 ex_nested_assign = Some TNum.
 Proof. exact ex_nested_assign_typed. Qed.
-Example C03_types_ex_shared_after_passing : ret_of (mkAnn [(8%N, TFn [] TNum)] []) ex_shared_after_passing = Some TNum.
+Example C03_types_ex_shared_after_passing : ret_of (mkAnn [(8%N, TFn [] TNum)] [] []) ex_shared_after_passing = Some TNum.
 Proof. exact ex_shared_after_passing_typed. Qed.
 Example C03_types_ex_defaults_pipe : ret_of an0 ex_defaults_pipe = Some (TTup [TNum; TNum; TNum]).
 Proof. exact ex_defaults_pipe_typed. Qed.
 Example C03_types_ex_records : ret_of an0 ex_records = Some TNum /\ xrun 20 ex_records [[]] = Ok [[4]]%Z.
 Proof. exact (conj ex_records_typed ex_records_run). Qed.
 Example C03_types_ex_recursion :
-  ret_of (mkAnn [] [(1%N, TNum)]) ex_rec = Some TNum /\ ret_of an0 ex_rec = None /\
+  ret_of (mkAnn [] [(1%N, TNum)] []) ex_rec = Some TNum /\ ret_of an0 ex_rec = None /\
   xrun 20 ex_rec [[]] = Ok [[3]]%Z /\ xrun 5 ex_rec [[]] = OutOfFuel.
 Proof. exact (conj ex_rec_typed (conj ex_rec_needs_return_type ex_rec_run)). Qed.
 
@@ -122,3 +144,32 @@ Proof. exact bad_named_rejected. Qed.
 (* conservative, as every decidable checker must be: rejected although this run is defined *)
 Example C03_types_conservative : tc_prog an0 bad_but_runs = None /\ xrun 20 bad_but_runs [[]] = Ok [[1]]%Z.
 Proof. exact bad_but_runs_rejected. Qed.
+
+(* ---- sum types, match, multi-word self: accepted programs (they run: Props/C02_ext.v) and rejected ones that DO get stuck ---- *)
+Example C03_types_ex_sum_self :
+  ret_of an_T ex_sum_self = Some TNum /\ xrun 20 ex_sum_self rows4 = Ok [[1]; [2]; [4]; [1000]]%Z /\ word_size ty_T = 3.
+Proof. exact (conj ex_sum_self_typed (conj ex_sum_self_run word_size_T)). Qed.
+Example C03_types_ex_tuple_self : ret_of an0 ex_tuple_self = Some TNum.
+Proof. exact ex_tuple_self_typed. Qed.
+Example C03_types_ex_match_arm_state : ret_of an0 ex_match_arm_state = Some TNum.
+Proof. exact ex_match_arm_state_typed. Qed.
+(* the real checker accepts this one (no exhaustiveness check on numbers: the lenient configuration does too): finding T6 *)
+Example C03_types_rejects_nonexhaustive_match :
+  tc_prog an0 bad_match_nonexhaustive = None /\ ret_of (mkLenient [] [] []) bad_match_nonexhaustive = Some TNum /\
+  xrun 20 bad_match_nonexhaustive [[]; []] = Stuck E_NOMATCH.
+Proof. exact bad_match_nonexhaustive_rejected. Qed.
+Example C03_types_rejects_missing_constructor :
+  tc_prog an_T bad_match_missing_ctor = None /\ xrun 20 bad_match_missing_ctor [[]] = Stuck E_NOMATCH.
+Proof. exact bad_match_missing_ctor_rejected. Qed.
+Example C03_types_rejects_payload_type : tc_prog an_T bad_payload_type = None /\ xrun 20 bad_payload_type [[]] = Stuck E_NOTNUM.
+Proof. exact bad_payload_type_rejected. Qed.
+Example C03_types_rejects_constructor_arity : tc_prog an_T bad_ctor_arity = None /\ xrun 20 bad_ctor_arity [[]] = Stuck E_NOTNUM.
+Proof. exact bad_ctor_arity_rejected. Qed.
+Example C03_types_rejects_pattern_type :
+  tc_prog an_T bad_pattern_type = None /\ ret_of (mkLenient [] [] sums_T) bad_pattern_type = Some TNum /\
+  xrun 20 bad_pattern_type [[]] = Stuck E_PAT.
+Proof. exact bad_pattern_type_rejected. Qed.
+Example C03_types_rejects_match_arms : tc_prog an0 bad_match_arms = None /\ xrun 20 bad_match_arms [[]; []] = Stuck E_NOTNUM.
+Proof. exact bad_match_arms_rejected. Qed.
+Example C03_types_rejects_self_shape : tc_prog an0 bad_self_shape = None.
+Proof. exact bad_self_shape_rejected. Qed.
